@@ -426,6 +426,10 @@ def judge_payload(obs, ex, m):
         return fails
     if k == 'MetaDataReplace':
         have = [canon(c) for c in rca]
+        keys = [(c.tag, xmlcmp.child_text(c, 'mosSchema')[1] if c.tag == 'mosExternalMetadata' else None)
+                for c in m.base if c.tag != 'roID']
+        if len(set(keys)) < len(keys):
+            return fails        # two carried elements name the same slot: which one stays is unspecified
         for c in m.base:
             if c.tag == 'roID':
                 continue            # identifies the running order, not metadata to copy
